@@ -10,6 +10,7 @@ WORLDS = {
     "w8": {"pkg": "internal/console", "harness": "w8", "weave": MAIN_WEAVE},
     "w3": {"pkg": "pkg/metadata", "harness": "w3", "weave": MAIN_WEAVE},
     "w4": {"pkg": "cmd/proxy", "harness": "w4", "weave": MAIN_WEAVE},
+    "w7": {"pkg": "pkg/storage", "harness": "w7", "weave": ["./pkg/storage/"]},
 }
 
 def P(world, **kw):
@@ -75,6 +76,8 @@ PROPS = {
              level_text="generated produce requests (flagged/unflagged records, several batches and partitions, every codec, arbitrary header sets, null/empty keys and values) sent through the real proxy with the LFS module on; the fake broker's received bytes are compared with what was sent. Deciding dimension: generated inputs; the simulator hosts the run (S3 faults, NOT_LEADER retries that re-encode)"),
     "C32": P("w4", quick_runs=1500, thorough_runs=100000, quick_budget_s=120, thorough_budget_s=1500,
              required_probes=["c32.success-judged", "c32.upload-refused", "c32.multipart-success"]),
+    "C08": P("w7", quick_runs=6000, thorough_runs=400000, quick_budget_s=60, thorough_budget_s=900,
+             required_probes=["c08.restore-succeeded", "c08.partial-restore", "c08.failure-clean", "c08.leftover-with-failed-delete"]),
 }
 
 NA = {
